@@ -708,7 +708,13 @@ type valCase struct {
 	TS   int    `json:"ts"`
 }
 
-var typeStrings = []string{"a", "", "π/☃", `with "quotes" and spaces`, "github.com/x/y.Type", "a\nb"}
+var typeStrings = []string{"a", "", "π/☃", `with "quotes" and spaces`, "github.com/x/y.Type", "a\nb",
+	// beyond nFullTypes: strings that a column with a numeric affinity, or a layer that guesses
+	// types, would rewrite (message codes such as ISO 8583's "0200" are type names in the wild);
+	// one document and one timestamp each, the facets are judged separately
+	"0200", "7.0", "1e3", " 42", "+5", "12345678901234567890", "-0", "0x1F", "1.50", "true", "null", ".5", "5.", "1e400"}
+
+const nFullTypes = 6
 var docs = []string{`{}`, `null`, `[1,2]`, `"a string"`, `{"a":{"b":[1,{"c":null}]}}`, `12345678901234567890123`, `9223372036854775808`, `1.5e300`,
 	`{"esc":"é\n\t\"\\","html":"<>&"}`, `true`, `  {"spaced" : 1 }  `, `{"a":1,"a":2}`}
 
@@ -818,6 +824,10 @@ func valueCases(kinds []string) []valCase {
 	nts := len(timestamps())
 	for _, k := range kinds {
 		for t := range typeStrings {
+			if t >= nFullTypes {
+				l = append(l, valCase{k, t, 4, 0})
+				continue
+			}
 			for d := range docs {
 				for s := 0; s < nts; s++ {
 					l = append(l, valCase{k, t, d, s})
@@ -907,6 +917,17 @@ func nestedCalls(c *h.Check) {
 			} else if got != 3 {
 				msg = fmt.Sprintf("SubscribeWithReplay replayed %d of 3 events", got)
 			}
+			// a consumer that stops a stream early (a callback error, a break) leaves nothing
+			// behind that a later writer would have to wait for
+			for range st.ReadStream(bg, eventbus.OffsetOldest) {
+				break
+			}
+			if _, err := st.Append(bg, &eventbus.Event{Type: eventbus.EventType(nestedEv{}), Data: json.RawMessage(`{"N":4}`), Timestamp: time.Unix(4, 0).UTC()}); err != nil && msg == "" {
+				msg = "Append after a stream that its consumer stopped early failed: " + err.Error()
+			}
+			if evs, _, err := st.Read(bg, eventbus.OffsetOldest, 0); err == nil && len(evs) != 4 && msg == "" {
+				msg = fmt.Sprintf("after an Append that follows a stream stopped early the log holds %d of 4 events", len(evs))
+			}
 			done <- msg
 		}()
 		select {
@@ -916,8 +937,8 @@ func nestedCalls(c *h.Check) {
 			}
 			st.Close()
 		case <-time.After(60 * time.Second):
-			c.Violate("nested-calls", "store=sqlite ("+v.name+"): a store call made from inside a stream's loop body, or SubscribeWithReplay, did not return (blocked for a minute)",
-				"three events; Read, SaveOffset and LoadOffset inside the loop body of ReadStream, then SubscribeWithReplay on a bus over the store", map[string]any{"nested_calls": v.name})
+			c.Violate("nested-calls", "store=sqlite ("+v.name+"): a store call made from inside a stream's loop body, SubscribeWithReplay, or an Append after a stream that its consumer stopped early, did not return (blocked for a minute)",
+				"three events; Read, SaveOffset and LoadOffset inside the loop body of ReadStream, then SubscribeWithReplay on a bus over the store, then a stream left after its first event and an Append", map[string]any{"nested_calls": v.name})
 			// the store is left behind: closing it would wait for the blocked call
 		}
 	}
